@@ -14,6 +14,7 @@ from symx.run import sym_compile, STUBS
 from symx.harness import Timeout, with_timeout
 from nutils import evaluable as ev
 import treelog
+from checks import c04_custom
 
 PID = 'C04'
 
@@ -27,6 +28,11 @@ def build(p, order):
         fa = float_args(p)
         if not fa: raise progs.IllTyped
         e = ev.derivative(e, progs.arg(fa[0]))
+    if order == 3:      # the factored (Monomial) form of a polynomial program: its derivative must be the derivative of the program
+        try:
+            e = ev.factor(e)
+        except Exception as ex:
+            raise progs.IllTyped(f'factor: {ex}')
     return e
 
 def fd_replay(p, order, wrt, args, direction):
@@ -59,7 +65,9 @@ def fd_replay(p, order, wrt, args, direction):
 
 def work(item):
     i, p, order = item
-    key = progs.show(p) + (f' [d/d{(float_args(p) or ["?"])[0]}]' if order == 2 else '')
+    if order == 'custom':
+        return c04_custom.case(p)
+    key = progs.show(p) + (f' [d/d{(float_args(p) or ["?"])[0]}]' if order == 2 else ' [factored]' if order == 3 else '')
     res = dict(key=key, viol=[], unconfirmed=[], q=dict(exact_unsat=0, margin_unsat=0, sat=0, unknown=0, trivial=0), paths=0, status='ok', nontrivial=False)
     try:
         e = build(p, order)
@@ -70,6 +78,7 @@ def work(item):
     names = progs.used_args(p)
     fa = float_args(p)
     if not fa: res['status'] = 'no-float-argument'; return res
+    e_oracle = progs.build(p) if order == 3 else e
     if e.dtype == complex: res['status'] = 'complex-declined'; return res
     for wrt in fa:
         x = progs.arg(wrt)
@@ -100,7 +109,7 @@ def work(item):
             nd = len(xshape)
             lhs = numpy.sum((Jv * dx).reshape(Jv.shape[:Jv.ndim - nd] + (-1,)), axis=-1) if nd else Jv * dx
             dvals = dict(vals); dvals[wrt] = dual.seed(vals[wrt], dx)
-            r = interp.denote(e, dvals)
+            r = interp.denote(e_oracle, dvals)
             return 'dual', lhs, dual.tangent(r), vals, dx, list(ctx().defined)
         _, assume = progs.symbolic_args(names)
         try:
@@ -164,16 +173,36 @@ def items(tier, seed):
     P += d2[:450 if tier == 'quick' else 30000]
     for _ in range(60 if tier == 'quick' else 2000):
         P.append(progs.random_program(rng, rng.choice([3, 4]), leaves=progs.FLEAVES + progs.XLEAVES + [('arg', 'k'), ('arg', 'n')]))
+    # targeted structural family: structural constructors over equal-length operands, multi-factor products (quick: seeded sample of levels 1 and 2; thorough: all)
+    S1 = [p for p, e in progs.typed(progs.structured(1)) if float_args(p)]
+    S2 = [p for p, e in progs.typed(progs.structured(2)) if float_args(p) and p not in set(S1)]; rng.shuffle(S2)
+    rng.shuffle(S1)
+    P += (S1[:1400] + S2[:300]) if tier == 'quick' else (S1 + S2)
     out = [(i, p, 1) for i, p in enumerate(P)]
     n2 = len(EXTRA) + (120 if tier == 'quick' else 5000)
     out += [(i, p, 2) for i, p in enumerate(P[:n2])]
+    out += [(i, p, 3) for i, p in enumerate(POLY)]
+    out += [(i, c, 'custom') for i, c in enumerate(c04_custom.cases(tier))]
     return out
+
+# polynomial programs for the factored form (evaluable.factor -> Monomial nodes); arguments with >= 3 axes of unequal leading lengths matter for the index ravelling
+POLY = [
+    ('mul', ('arg', 'P'), ('arg', 'P')), ('sum', ('mul', ('mul', ('arg', 'P'), ('arg', 'P')), ('arg', 'P')), 1), ('mul', ('sum', ('mul', ('arg', 'P'), ('arg', 'P')), 0), ('insertaxis', ('arg', 'x'), 1, 2)),
+    ('mul', ('arg', 'H'), ('arg', 'H')), ('sum', ('mul', ('arg', 'H'), ('insertaxis', ('insertaxis', ('arg', 'u'), 1, 2), 2, 3)), 2), ('mul', ('arg', 'K'), ('transpose', ('arg', 'K'), 'r')),
+    ('mul', ('arg', 'T'), ('arg', 'U')), ('sum', ('mul', ('arg', 'T'), ('arg', 'T')), 0), ('add', ('mul', ('arg', 'x'), ('arg', 'y')), ('cube', ('arg', 'x'))), ('matvec', ('mul', ('arg', 'M'), ('arg', 'M')), ('arg', 'x')),
+    ('mul', ('get', ('arg', 'P'), 1, 2), ('get', ('arg', 'P'), 1, 0)), ('mul', ('take', ('arg', 'P'), ('cvec', 'perm3'), 1), ('arg', 'P')), ('mul', ('arg', 's'), ('mul', ('arg', 'B'), ('arg', 'B'))),
+]
 
 def main(argv=None):
     args = harness.parse_args(PID, argv)
     if args.replay:
         import json
         d = json.load(open(args.replay))['replay']
+        if 'item' in d:     # user-defined operation
+            if d['kind'] == 'value': ok, detail = c04_custom.replay(tuple(d['item']), {k: numpy.array(v) for k, v in d['arguments'].items()}, numpy.array(d['direction']))
+            else:
+                r = c04_custom.case(tuple(d['item'])); ok, detail = bool(r['viol']), str(r['viol'][:1])
+            print('REPRODUCED' if ok else 'not reproduced', detail); return 1 if ok else 0
         p = progs.parse(d['program'])
         if d['kind'] == 'value':
             ok, detail = fd_replay(p, d['order'], d['wrt'], {k: numpy.array(v) for k, v in d['arguments'].items()}, d['direction'])
@@ -186,12 +215,13 @@ def main(argv=None):
         'Non-float programs must have an identically zero derivative of shape f.shape+x.shape.  Second derivatives: first derivatives are fed back in as programs.  '
         'A solver counterexample is reported only if central finite differences of the real evaluation confirm it.')
     run.stubs = STUBS + ['oracle: dual numbers (symx.dual) through symx.interp; transcendental derivatives are the textbook ones on uninterpreted symbols']
-    run.assumptions = ['kinks excluded by side conditions (abs/sign at 0, min/max at ties)', 'real differentiation only (complex/holomorphic derivatives are not implemented in nutils and declined)', 'function._CustomEvaluable user operations have no code to encode: declined']
+    run.assumptions = ['kinks excluded by side conditions (abs/sign at 0, min/max at ties)', 'real differentiation only (complex/holomorphic derivatives are not implemented in nutils and declined)', 'user-defined operations: the chain-rule plumbing of function.Custom is checked on a handful of operations defined by the harness (checks/c04_custom.py); arbitrary user evalf code is outside the claim']
     I = items(args.tier, args.seed)
-    if args.only: I = [it for it in I if args.only in progs.show(it[1])]
+    if args.only: I = [it for it in I if args.only in (progs.show(it[1]) if it[2] != 'custom' else ':'.join(map(str, it[1])))]
     run.bounds = dict(cases=len(I), orders='1 (all), 2 (subset)', max_paths=8, matrix_sizes='inverse/determinant 2x2 and 3x3')
     with harness.FuncTrace() as ft:
         for it in I[:3]: work(it)
+        work((0, ('custom', 'mul(x,x^2)', 'x', 1), 'custom'))
     run.functions = ft.names
     # vacuity twin: a wrong derivative (f+x has derivative of f) must be caught
     e = progs.build(('mul', ('arg', 'x'), ('arg', 'x'))); J = ev.derivative(e, progs.arg('x'))
@@ -203,7 +233,8 @@ def main(argv=None):
         return lhs, dual.tangent(r)
     paths, _ = explore(tw); lhs, tang = paths[0].value
     run.twin(solve.equiv(tang, lhs).sat > 0)
-    for res in harness.pmap(work, I, args.jobs, chunksize=8):
+    slow = []
+    for res in harness.pmap(work, I, args.jobs, chunksize=4, case_timeout=60 if args.tier == 'quick' else 300):
         if 'harness_error' in res:
             run.counters['worker_error'] += 1
             if run.counters['worker_error'] <= 3: run.inconclusive.append('worker error: ' + res['harness_error'][:500])
@@ -216,6 +247,8 @@ def main(argv=None):
         if res['status'] == 'unsupported': run.counters['unsupported:' + res.get('unsupported', '')] += 1
         if res['status'] == 'derivative_raises': run.counters['raises:' + res.get('note', '')[:50]] += 1
         if res['nontrivial']: run.sample(dict(program=res['key'], queries=res['q']))
+        slow.append((res.get('_wall', 0), res['key'], res['status']))
+    run.cov['slowest_cases'] = [dict(seconds=w, case=k[:160], status=st) for w, k, st in sorted(slow, reverse=True)[:12]]
     return run.finish(dict(programs=run.cases, disagreements_checked=run.queries['sat'] + len(run.violations)))
 
 if __name__ == '__main__':
